@@ -1,1 +1,409 @@
-//! (reference model; owner fills this in)
+//! Reference model for `hpack` — TeX: The Program §649–667 (and §108 badness, §103 print_scaled,
+//! §186 for the printed form of a glue set).
+//!
+//! The model works on its own item type; the monitor (c15) converts the repository's
+//! `ds::Horizontal` nodes into it. Nothing here depends on /repo.
+//!
+//! ```text
+//! §650  d←0; x←0; total_stretch[normal..filll]←0; total_shrink[normal..filll]←0
+//! §651  char/ligature: §654     box/rule: §653     glue: §656    kern, math: x←x+width(p)
+//!       ins/mark/adjust, penalty, discretionary, whatsit: contribute nothing
+//! §653  x←x+width(p); s←shift_amount(p) (0 for rules);
+//!       if height(p)−s>h then h←height(p)−s;  if depth(p)+s>d then d←depth(p)+s
+//! §656  x←x+width(g); total_stretch[stretch_order(g)] += stretch(g); total_shrink[shrink_order(g)] += shrink(g)
+//! §657  if m=additional then w←x+w;  width(r)←w;  x←w−x;
+//!       x=0: glue_sign←normal, glue_order←normal, glue_set←0.0
+//! §658  x>0: o←highest order with total_stretch[o]≠0 (normal if none)  (§659)
+//!       glue_order←o; glue_sign←stretching;
+//!       if total_stretch[o]≠0 then glue_set←x/total_stretch[o] else glue_sign←normal, glue_set←0.0
+//! §664  x<0: o←highest order with total_shrink[o]≠0 (normal if none)   (§665)
+//!       glue_order←o; glue_sign←shrinking;
+//!       if total_shrink[o]≠0 then glue_set←(−x)/total_shrink[o] else glue_sign←normal, glue_set←0.0
+//!       if (total_shrink[o]<−x)∧(o=normal)∧(list_ptr(r)≠null) then glue_set←1.0   {overfull}
+//! ```
+
+pub const NORMAL: usize = 0;
+pub const FIL: usize = 1;
+pub const FILL: usize = 2;
+pub const FILLL: usize = 3;
+
+#[derive(Clone, Debug, PartialEq, Eq, Hash)]
+pub enum Item {
+    /// char, ligature, hlist, vlist, rule: contributes width and (shifted) height/depth.
+    /// For characters, ligatures and rules `shift` is 0 (§653: `if type(p)>=rule_node then s←0`).
+    Boxy { w: i32, h: i32, d: i32, shift: i32 },
+    /// §656.
+    Glue {
+        w: i32,
+        stretch: i32,
+        stretch_order: usize,
+        shrink: i32,
+        shrink_order: usize,
+    },
+    /// kern (any kind) and math: width only.
+    Kern { w: i32 },
+    /// penalty, discretionary, whatsit, mark, insertion, adjust: `othercases do_nothing`.
+    Inert,
+}
+
+#[derive(Clone, Copy, Debug, PartialEq, Eq)]
+pub enum Target {
+    Exactly(i32),
+    Additional(i32),
+}
+
+#[derive(Clone, Copy, Debug, PartialEq, Eq)]
+pub enum Sign {
+    Normal,
+    Stretching,
+    Shrinking,
+}
+
+#[derive(Clone, Debug, PartialEq, Eq)]
+pub struct Packed {
+    pub width: i64,
+    pub height: i64,
+    pub depth: i64,
+    pub natural: i64,
+    /// w − natural
+    pub excess: i64,
+    pub total_stretch: [i64; 4],
+    pub total_shrink: [i64; 4],
+    pub sign: Sign,
+    pub order: usize,
+    /// glue_set as an exact rational `set_num / set_den` (set_den != 0). Meaningless (0/1) when
+    /// `sign == Normal`. May be negative when the relevant total is negative.
+    pub set_num: i64,
+    pub set_den: i64,
+    /// §664: the box is overfull (glue_set forced to 1.0).
+    pub overfull: bool,
+    /// Highest order that occurs on *any* glue node in the relevant direction, whether or not
+    /// its total is zero (used by monitors for trigger predicates; not part of TeX's result).
+    pub max_order_present_stretch: usize,
+    pub max_order_present_shrink: usize,
+}
+
+impl Packed {
+    /// |glue_set| as (num, den) with den > 0; (0,1) when the glue is not set.
+    pub fn abs_ratio(&self) -> (i64, i64) {
+        if self.sign == Sign::Normal {
+            (0, 1)
+        } else {
+            (self.set_num.abs(), self.set_den.abs())
+        }
+    }
+}
+
+fn highest_nonzero(t: &[i64; 4]) -> usize {
+    // §659 / §665
+    if t[FILLL] != 0 {
+        FILLL
+    } else if t[FILL] != 0 {
+        FILL
+    } else if t[FIL] != 0 {
+        FIL
+    } else {
+        NORMAL
+    }
+}
+
+/// Accumulated dimensions, shared by `hpack` and by deviation models.
+pub struct Totals {
+    pub natural: i64,
+    pub height: i64,
+    pub depth: i64,
+    pub total_stretch: [i64; 4],
+    pub total_shrink: [i64; 4],
+    pub max_order_present_stretch: usize,
+    pub max_order_present_shrink: usize,
+    pub n_glue: usize,
+}
+
+pub fn totals(list: &[Item]) -> Totals {
+    let mut t = Totals {
+        natural: 0,
+        height: 0,
+        depth: 0,
+        total_stretch: [0; 4],
+        total_shrink: [0; 4],
+        max_order_present_stretch: NORMAL,
+        max_order_present_shrink: NORMAL,
+        n_glue: 0,
+    };
+    for it in list {
+        match *it {
+            Item::Boxy { w, h, d, shift } => {
+                t.natural += w as i64;
+                let hh = h as i64 - shift as i64;
+                let dd = d as i64 + shift as i64;
+                if hh > t.height {
+                    t.height = hh;
+                }
+                if dd > t.depth {
+                    t.depth = dd;
+                }
+            }
+            Item::Glue {
+                w,
+                stretch,
+                stretch_order,
+                shrink,
+                shrink_order,
+            } => {
+                t.natural += w as i64;
+                t.total_stretch[stretch_order] += stretch as i64;
+                t.total_shrink[shrink_order] += shrink as i64;
+                t.max_order_present_stretch = t.max_order_present_stretch.max(stretch_order);
+                t.max_order_present_shrink = t.max_order_present_shrink.max(shrink_order);
+                t.n_glue += 1;
+            }
+            Item::Kern { w } => t.natural += w as i64,
+            Item::Inert => {}
+        }
+    }
+    t
+}
+
+/// TeX's hpack.
+pub fn hpack(list: &[Item], target: Target) -> Packed {
+    let t = totals(list);
+    let width = match target {
+        Target::Exactly(w) => w as i64,
+        Target::Additional(a) => t.natural + a as i64,
+    };
+    let x = width - t.natural;
+    let mut p = Packed {
+        width,
+        height: t.height,
+        depth: t.depth,
+        natural: t.natural,
+        excess: x,
+        total_stretch: t.total_stretch,
+        total_shrink: t.total_shrink,
+        sign: Sign::Normal,
+        order: NORMAL,
+        set_num: 0,
+        set_den: 1,
+        overfull: false,
+        max_order_present_stretch: t.max_order_present_stretch,
+        max_order_present_shrink: t.max_order_present_shrink,
+    };
+    if x == 0 {
+        return p;
+    }
+    if x > 0 {
+        let o = highest_nonzero(&t.total_stretch);
+        p.order = o;
+        if t.total_stretch[o] != 0 {
+            p.sign = Sign::Stretching;
+            p.set_num = x;
+            p.set_den = t.total_stretch[o];
+        }
+        return p;
+    }
+    let o = highest_nonzero(&t.total_shrink);
+    p.order = o;
+    if t.total_shrink[o] != 0 {
+        p.sign = Sign::Shrinking;
+        p.set_num = -x;
+        p.set_den = t.total_shrink[o];
+    }
+    if t.total_shrink[o] < -x && o == NORMAL && !list.is_empty() {
+        // set_glue_ratio_one; with glue_sign=normal (total 0) the ratio is never applied.
+        p.overfull = true;
+        p.set_num = 1;
+        p.set_den = 1;
+    }
+    p
+}
+
+/// Deviation model for known finding C15-dominating-order-only: instead of four totals per
+/// direction only the total of the *highest order seen on any glue node* is kept (a glue node of a
+/// higher order replaces the running total even if its amount is zero). Everything else as TeX.
+pub fn hpack_dominating_order_only(list: &[Item], target: Target) -> Packed {
+    let mut p = hpack(list, target);
+    let x = p.excess;
+    p.sign = Sign::Normal;
+    p.order = NORMAL;
+    p.set_num = 0;
+    p.set_den = 1;
+    p.overfull = false;
+    if x == 0 {
+        return p;
+    }
+    if x > 0 {
+        let o = p.max_order_present_stretch;
+        let tot = p.total_stretch[o];
+        if tot != 0 {
+            p.sign = Sign::Stretching;
+            p.order = o;
+            p.set_num = x;
+            p.set_den = tot;
+        }
+        return p;
+    }
+    let o = p.max_order_present_shrink;
+    let tot = p.total_shrink[o];
+    p.order = o;
+    if tot != 0 {
+        p.sign = Sign::Shrinking;
+        p.set_num = -x;
+        p.set_den = tot;
+    }
+    if tot < -x && o == NORMAL && !list.is_empty() {
+        p.overfull = true;
+        p.set_num = 1;
+        p.set_den = 1;
+    }
+    p
+}
+
+/// §108. `t ≥ 0`.
+pub fn badness(t: i64, s: i64) -> i32 {
+    if t == 0 {
+        return 0;
+    }
+    if s <= 0 {
+        return 10000;
+    }
+    let r: i64 = if t <= 7_230_584 {
+        (t * 297) / s
+    } else if s >= 1_663_497 {
+        t / (s / 297)
+    } else {
+        t
+    };
+    if r > 1290 {
+        10000
+    } else {
+        ((r * r * r + 0o400000) / 0o1000000) as i32
+    }
+}
+
+/// §103 print_scaled (without unit).
+pub fn print_scaled(s: i64) -> String {
+    let mut out = String::new();
+    let mut s = s;
+    if s < 0 {
+        out.push('-');
+        s = -s;
+    }
+    out.push_str(&(s / 65536).to_string());
+    out.push('.');
+    let mut s = 10 * (s % 65536) + 5;
+    let mut delta = 10;
+    loop {
+        if delta > 65536 {
+            s = s + 0o100000 - 50000;
+        }
+        out.push((b'0' + (s / 65536) as u8) as char);
+        s = 10 * (s % 65536);
+        delta *= 10;
+        if s <= delta {
+            break;
+        }
+    }
+    out
+}
+
+/// §102 round_decimals on the digits after the point, plus the integer part: the inverse of
+/// `print_scaled` for non-negative values. Returns None on malformed input.
+pub fn parse_scaled(text: &str) -> Option<i64> {
+    let (neg, text) = match text.strip_prefix('-') {
+        Some(r) => (true, r),
+        None => (false, text),
+    };
+    let (int_s, frac_s) = match text.split_once('.') {
+        Some((a, b)) => (a, b),
+        None => (text, ""),
+    };
+    if int_s.is_empty() || !int_s.bytes().all(|b| b.is_ascii_digit()) {
+        return None;
+    }
+    if !frac_s.bytes().all(|b| b.is_ascii_digit()) {
+        return None;
+    }
+    let int: i64 = int_s.parse().ok()?;
+    let digits: Vec<i64> = frac_s.bytes().take(17).map(|b| (b - b'0') as i64).collect();
+    let mut a: i64 = 0;
+    for d in digits.iter().rev() {
+        a = (a + d * 131072) / 10;
+    }
+    let frac = (a + 1) / 2;
+    let v = int * 65536 + frac;
+    Some(if neg { -v } else { v })
+}
+
+/// The number TeX prints after "glue set " (§186): round(unity·|g|) with |g| capped at 20000,
+/// as a scaled integer, computed exactly (round half up).
+pub fn printed_glue_set_exact(abs_num: i64, abs_den: i64) -> i64 {
+    debug_assert!(abs_den > 0 && abs_num >= 0);
+    let cap = 20000i128 * 65536;
+    let v = (abs_num as i128 * 65536 * 2 + abs_den as i128) / (2 * abs_den as i128);
+    if v > cap {
+        cap as i64
+    } else {
+        v as i64
+    }
+}
+
+#[cfg(test)]
+mod tests {
+    use super::*;
+
+    fn glue(w: i32, st: i32, so: usize, sh: i32, ho: usize) -> Item {
+        Item::Glue {
+            w,
+            stretch: st,
+            stretch_order: so,
+            shrink: sh,
+            shrink_order: ho,
+        }
+    }
+
+    #[test]
+    fn print_scaled_examples() {
+        assert_eq!(print_scaled(65536), "1.0");
+        assert_eq!(print_scaled(0), "0.0");
+        assert_eq!(print_scaled(32768), "0.5");
+        assert_eq!(print_scaled(1), "0.00002");
+        assert_eq!(print_scaled(-98304), "-1.5");
+        for v in [0i64, 1, 2, 3, 65535, 65536, 65537, 123456, 41959, 20000 * 65536] {
+            assert_eq!(parse_scaled(&print_scaled(v)), Some(v), "{v}");
+        }
+    }
+
+    #[test]
+    fn badness_examples() {
+        // TeXbook: badness ≈ 100·(t/s)^3
+        assert_eq!(badness(0, 0), 0);
+        assert_eq!(badness(1, 0), 10000);
+        assert_eq!(badness(65536, 65536), 100);
+        assert_eq!(badness(65536, 131072), 12);
+        assert_eq!(badness(655360, 65536), 10000);
+    }
+
+    #[test]
+    fn finite_stretch_next_to_zero_fil() {
+        let l = vec![glue(0, 10 << 16, NORMAL, 0, NORMAL), glue(0, 0, FIL, 0, NORMAL)];
+        let p = hpack(&l, Target::Exactly(5 << 16));
+        assert_eq!((p.sign, p.order, p.abs_ratio()), (Sign::Stretching, NORMAL, (5 << 16, 10 << 16)));
+        let q = hpack_dominating_order_only(&l, Target::Exactly(5 << 16));
+        assert_eq!(q.sign, Sign::Normal);
+    }
+
+    #[test]
+    fn overfull_and_shift() {
+        let l = vec![
+            Item::Boxy { w: 100, h: 10, d: 3, shift: 4 },
+            glue(10, 0, NORMAL, 5, NORMAL),
+        ];
+        let p = hpack(&l, Target::Exactly(100));
+        assert!(p.overfull);
+        assert_eq!(p.abs_ratio(), (1, 1));
+        assert_eq!((p.height, p.depth), (6, 7));
+        let p = hpack(&l, Target::Exactly(105));
+        assert!(!p.overfull);
+        assert_eq!(p.abs_ratio(), (5, 5));
+    }
+}
